@@ -269,25 +269,41 @@ def miri_threads_engine(prop, tier, seed):
     import random
     r = random.Random(seed)  # python's Mersenne twister is specified; seeded -> deterministic plan
     plans = []
-    # every cheap family gets a shared combined instance in some workload of every run: families are dealt
-    # round-robin (seed-dependent rotation), four per ordinary workload
-    rot = seed % len(CHEAP)
-    order = CHEAP[rot:] + CHEAP[:rot]
+    # Family coverage per run: one representative of EVERY crate always gets a shared combined instance (five
+    # workloads of four), the remaining families rotate through the other slots (seed-dependent), Kuznyechik's
+    # default build has workloads of its own (~10 s of interpreter start-up for its tables).
+    fams_out = subprocess.run([NATIVE, "families"], capture_output=True, text=True).stdout.split("\n")
+    fam_crate = [(ln.split()[0], ln.split()[1]) for ln in fams_out if ln.strip()]
+    reps, seen = [], set()
+    for f, c in fam_crate:
+        if c not in seen and c != "kuznyechik":
+            seen.add(c)
+            reps.append(f)
+    others = [f for f, c in fam_crate if f not in reps and c != "kuznyechik"]
+    rot = seed % max(1, len(others))
+    others = others[rot:] + others[:rot]
     nxt = 0
+
+    def take(k):
+        nonlocal nxt
+        out = [others[(nxt + j) % len(others)] for j in range(k)]
+        nxt += k
+        return out
+    groups = [reps[i:i + 4] for i in range(0, len(reps), 4)]
     for i in range(nwl):
         variants = "-"
         if i % 4 == 1:
-            # the default Kuznyechik build (SSE2 backend, fused tables) costs ~10 s of interpreter start-up:
-            # give it its own workloads, shared-instance mode
-            fams = ["kuznyechik"] + [order[(nxt + k) % len(order)] for k in range(2)]
-            nxt += 2
+            fams = ["kuznyechik"] + take(2)
             variants = "kuz,kuz_z"
+        elif groups:
+            fams = groups.pop(0)
+            if len(fams) < 4:
+                fams = fams + take(4 - len(fams))
         else:
-            fams = [order[(nxt + k) % len(order)] for k in range(4)]
-            nxt += 4
-            if i % 2 == 0 and not any(f.startswith("aes") for f in fams):
-                # first-use workloads race the detection cache: they need a type that goes through it
-                fams.append(["aes128", "aes192", "aes256"][(i // 2) % 3])
+            fams = take(4)
+        if i % 2 == 0 and not any(f.startswith("aes") for f in fams):
+            # first-use workloads race the detection cache: they need a type that goes through it
+            fams.append(["aes128", "aes192", "aes256"][(i // 2) % 3])
         plans.append(dict(wl_seed=seed * 1000 + i, nthreads=r.choice([2, 3, 3, 4]), nops=r.choice([2, 3]),
                           mode="firstuse" if i % 2 == 0 else "shared", fams=fams, miri_seeds=(i * per, i * per + per),
                           rate=r.choice([0.003, 0.01, 0.03, 0.1]), variants=variants))
@@ -302,7 +318,7 @@ def miri_threads_engine(prop, tier, seed):
         # thorough: the ARMv8-CE arm (detection granted, five intrinsics modelled) and the aarch64 soft arm under threads
         for j in range(8):
             plans.append(dict(wl_seed=seed * 1000 + 500 + j, nthreads=3, nops=2, mode="firstuse" if j % 2 == 0 else "shared",
-                              fams=[["aes128", "aes192", "aes256"][j % 3]] + [order[(nxt + j) % len(order)]], miri_seeds=(900 + j * 4, 904 + j * 4),
+                              fams=[["aes128", "aes192", "aes256"][j % 3]] + take(1), miri_seeds=(900 + j * 4, 904 + j * 4),
                               rate=r.choice([0.01, 0.03]), variants="-", target="aarch64", grant=(j % 4 != 3)))
     t0 = time.time()
     with ThreadPoolExecutor(max_workers=max(1, 16 // per)) as ex:
